@@ -18,12 +18,12 @@
 (***************************************************************************)
 EXTENDS Naturals, Sequences, FiniteSets, SequencesExt, TLC
 
-Lower == {"a", "b", "i", "f"}
-Upper == {"A", "B", "I", "F"}
+Lower == {"a", "b", "i", "f", "z", "e", "r", "o", "n"}      \* (z e r o n: the letters of the digit words "zero" / "one")
+Upper == {"A", "B", "I", "F", "Z", "O"}
 Digit == {"0", "1"}
 Under == {"_"}
 Punct == {"-", ".", " "}
-ToLower(c) == CASE c = "A" -> "a" [] c = "B" -> "b" [] c = "I" -> "i" [] c = "F" -> "f" [] OTHER -> c
+ToLower(c) == CASE c = "A" -> "a" [] c = "B" -> "b" [] c = "I" -> "i" [] c = "F" -> "f" [] c = "Z" -> "z" [] c = "O" -> "o" [] OTHER -> c
 IsWord(c) == c \in Lower \cup Upper \cup Digit \cup Under
 Ones == [d \in Digit |-> IF d = "0" THEN <<"z", "e", "r", "o">> ELSE <<"o", "n", "e">>]
 \* the reserved words expressible over this alphabet (keywords / builtins: if, abs, bin, ...; here: "if", "a"? no)
@@ -47,6 +47,17 @@ Underscore(s) == LET a == U1(s, 1) b == U2(a, 1) IN [i \in DOMAIN b |-> ToLower(
 Suffix(s) == IF s \in Blacklist THEN Append(s, "_") ELSE s
 FieldLabel(k) == Suffix(Underscore(DigitRule(StripNonWord(k))))
 ClassLabel(k) == Suffix(DigitRule(StripNonWord(k)))
+\* GenericModelCodeGenerator.convert_class_name: the class label with its leading underscores dropped and its first letter in upper
+\* case (so that it differs from the field label of the same key: in the nested layout both live in one class body); the
+\* reserved-word suffix is applied again to the new spelling.  (The alphabet here is cased: the '_' suffix of caseless scripts
+\* does not arise.)
+ToUpper(c) == CASE c = "a" -> "A" [] c = "b" -> "B" [] c = "i" -> "I" [] c = "f" -> "F" [] c = "z" -> "Z" [] c = "o" -> "O" [] OTHER -> c
+RECURSIVE LStrip(_)
+LStrip(s) == IF s # <<>> /\ s[1] = "_" THEN LStrip(Tail(s)) ELSE s
+ClassName(k) ==
+  LET label == ClassLabel(k)
+      st == LStrip(label)
+  IN IF st # <<>> /\ ToUpper(st[1]) # st[1] THEN Suffix(<<ToUpper(st[1])>> \o Tail(st)) ELSE label
 
 Fold(k) == LET w == SelectSeq(k, LAMBDA c : c \in Lower \cup Upper \cup Digit) IN [i \in DOMAIN w |-> ToLower(w[i])]
 HasLetter(k) == \E i \in DOMAIN k : k[i] \in Lower \cup Upper
